@@ -245,9 +245,22 @@ func isDefineStmt(stmt ast.Stmt) bool {
 	return ok && assign.Tok == token.DEFINE
 }
 
+// unalias strips alias declarations ('type IntIter = co.Iter[int]'): since go1.23 the
+// type checker represents them as nodes of their own (types.Alias), which are
+// neither *types.Named nor expose anything but Rhs to get behind them.
+func unalias(ty types.Type) types.Type {
+	for {
+		alias, ok := ty.(interface{ Rhs() types.Type })
+		if !ok {
+			return ty
+		}
+		ty = alias.Rhs()
+	}
+}
+
 func identicalWithoutTypeParam(x, y types.Type) bool {
 	unwrapTyParam := func(ty types.Type) types.Type {
-		if named, ok := ty.(*types.Named); ok {
+		if named, ok := unalias(ty).(*types.Named); ok {
 			return named.Obj().Type()
 		}
 		return nil
